@@ -2,7 +2,7 @@
    observation satisfies the model-free spec, and is never an error value. *)
 From Coq Require Import NArith ZArith Bool List Lia ZifyBool.
 From CppUVerif Require Import lib.Str C13_Text C13_Alloc C13_Model C13_Proofs C13_Main C13_Pool C13_PoolProofs C13_Life C13_LifeProofs
-                              C13_LifeProofs2 C13_LifeSplit C13_Loose C13_Chain.
+                              C13_LifeProofs2 C13_LifeSplit C13_Loose C13_Chain C13_Coll.
 Import ListNotations.
 Local Open Scope N_scope.
 
@@ -19,6 +19,7 @@ Proof.
   - cbn [valid_scn] in V. split_valid V. cbn [eval_scn expected_scn]. rewrite masked_ok by lia. reflexivity.
   - cbn [valid_scn] in V. cbn [eval_scn expected_scn]. rewrite binary_ok; [reflexivity|].
     unfold isbyte in V. rewrite forallb_forall in V. apply Forall_forall. intros c Hc. specialize (V c Hc). lia.
+  - apply eval_coll. exact V.
 Qed.
 Lemma scn_meets_spec s : valid_scn s = true -> spec_scn s (run_scn s) = true.
 Proof.
